@@ -12,7 +12,7 @@ Core Lean only.
 import NriModel.Result
 
 namespace Nri.Ledger
-open Nri.Api Nri.Result
+open Nri.NApi Nri.Result
 
 /-- the items of a `LinuxResources` message a plugin sets -/
 def resItems (r : Resources) : List Item := resSets r
@@ -133,7 +133,7 @@ def blameOk (k : Kind) (rs : List (Plugin × Response)) (p q subject : Str) : Bo
 end Nri.Ledger
 
 namespace Nri.Ledger
-open Nri.Api Nri.Result
+open Nri.NApi Nri.Result
 
 /-! ### The abstract ledger (C02)
 
